@@ -107,6 +107,12 @@ PENDING = {
     "getitem:full-shape-mask&split-chunks&zero-length-axis:TypeError@array/reshape.py:reshape_rechunk": "x[mask] with shape (4, 0), chunks ((2, 2), (0,)): ravel fails",
     "getitem:full-shape-dask-mask[own-chunks]&zero-length-axis:TypeError@array/reshape.py:reshape_rechunk": "same, the split chunks are those of the dask mask",
     "getitem:full-shape-mask&split-chunks&zero-length-axis:IndexError@array/reshape.py:reshape_rechunk": "same with two zero-length axes",
+    # chunkings with a zero-size chunk inside a non-empty axis, e.g. chunks=((2, 0, 1),)  (family label, see classify)
+    "getitem:slice&zero-size-chunk:wrong-result": "da.from_array(np.arange(3), chunks=((2, 0, 1),))[::-1] is empty: _slice_1d bisects duplicate chunk boundaries",
+    "getitem:int-or-bool-array&zero-size-chunk:raises": "x[[1]] with chunks (1, 0, 1): take() computes average_chunk_size 0 -> range() arg 3 must not be zero",
+    "getitem:dask-index-array&zero-size-chunk:raises": "x[dask_int_or_bool_array] with a zero-size chunk: Missing dependency ... (blockwise skips the empty block)",
+    "getitem:dask-index-array&zero-size-chunk:wrong-result": "x[:, dask_bool] with chunks ((1, 0), (6,)): computed shape differs",
+    "getitem:full-shape-mask&zero-size-chunk:raises": "x[mask] with chunks ((1, 2, 0, 1), ...): cannot reshape array of size 2 into shape (1,)",
     # vindex corner cases
     "vindex:int-array[0d]:TypeError@array/core.py:_vindex_array": "x.vindex[np.array(2)]: len() of a 0-d index array",
     "vindex:int-array[empty,2d]:ValueError@array/core.py:_vindex_array": "x.vindex[np.zeros((2, 0), int)]: max of an empty array",
@@ -150,7 +156,7 @@ def cases(tier, seed):
         chunks = A.rand_chunks(rng, shape)
         while np.prod([len(c) for c in chunks] or [1]) > 120:
             chunks = tuple(A.rand_comp(rng, s, rng.choice(("one", "two", "regular"))) for s in shape)
-        chunks = IX.with_zero_chunks(rng, chunks)
+        chunks = IX.with_zero_chunks(rng, chunks, 0.07)
         op = rng.choice(("getitem",) * 7 + ("vindex",) * 2 + ("blocks",))
         d = {"op": op, "shape": list(shape), "chunks": [list(c) for c in chunks], "dtype": rng.choice(DTYPES),
              "threads": rng.random() < 0.1, "bare": False}
@@ -380,6 +386,15 @@ def classify(op, shape, chunks, dtype, enc, bare, sym):
     else:
         feat = IX.label_features(enc_m, shape_m, chunks_m, layout=not fixed)
     label = "%s:%s:%s" % (op_m, feat, sym_m)
+    if not fixed and any(0 in c and n > 0 for c, n in zip(chunks_m, shape_m)):
+        # a zero-size chunk inside a non-empty axis is needed by the minimal witness: a family of defects (duplicate
+        # chunk boundaries in _slice_1d, average chunk size 0 in take, blockwise over empty blocks ...) whose shrunk
+        # forms vary; labelled by index family and symptom class
+        fam = ("dask-index-array" if any(t.startswith("dask-") for t in toks) else
+               "full-shape-mask" if any(t.startswith("full-shape") for t in toks) else
+               "int-or-bool-array" if any(t.startswith(("int-list", "int-array", "bool-list", "bool-array")) for t in toks) else
+               "slice" if any(t.startswith("slice") for t in toks) else "basic-index")
+        label = "%s:%s&zero-size-chunk:%s" % (op_m, fam, "wrong-result" if sym_m in MISMATCH_SYMPTOMS else "raises")
     minimal = {"op": op_m, "index": IX.show(enc_m), "chunks": [list(c) for c in chunks_m]}
     if not fixed:
         minimal["shape"] = list(shape_m)
